@@ -1678,7 +1678,11 @@ func (ev *Ev) index(x *ast.IndexExpr) Value {
 			idx := ev.mapKey(ev.expr(x.Index), ut.Key())
 			lv = &LValue{K: lvMapElem, Ref: base.T, Idx: idx.T, IdxS: idx.S, Typ: ut.Elem(), MapTyp: ut, ElemKey: typeKey(ut)}
 		}
-		return ev.readLV(lv)
+		rv := ev.readLV(lv)
+		if _, isSl := ut.(*types.Slice); isSl && !ev.spec && rv.K == vScalar && rv.S == SInt {
+			ev.u.typeFacts(ev.st, rv) // an element of an integer slice holds a value of its type (e.g. a byte is >= 0)
+		}
+		return rv
 	case *types.Basic:
 		if ut.Info()&types.IsString != 0 {
 			idx := ev.expr(x.Index)
